@@ -12,6 +12,9 @@ mod sqlgen;
 mod sqlite;
 mod world;
 mod common;
+mod dpchecks;
+mod dpdump;
+mod dpir;
 mod grids;
 mod probe;
 mod refm;
@@ -26,6 +29,11 @@ fn main() {
         std::process::exit(2);
     }
     let id = args[1].clone();
+    if id == "dpdump" {
+        install_panic_hook();
+        dpdump::run(&args[2]);
+        return;
+    }
     if id == "C18-child" {
         // qv C18-child <tier> <shard> <nshards> <from> <out>
         let tier = if args[2] == "quick" { Tier::Quick } else { Tier::Thorough };
@@ -68,6 +76,9 @@ fn main() {
         .build_global()
         .unwrap();
     let report = match id.as_str() {
+        "C01" => dpchecks::run(&ctx, dpchecks::Which::C01),
+        "C03" => dpchecks::run(&ctx, dpchecks::Which::C03),
+        "C09" => dpchecks::run(&ctx, dpchecks::Which::C09),
         "C06" => c06::run(&ctx),
         "C07" => sqlchecks::run_sql_check(&ctx, sqlchecks::Which::C07),
         "C08" => sqlchecks::run_sql_check(&ctx, sqlchecks::Which::C08),
